@@ -13,8 +13,8 @@ RULE = ("equilibrium tissues: Voronoi diagrams (tension = site distance) and the
         "non-trivial = at least 6 inferred interfaces; distinct = (tissue, method, fit, ne)")
 TRUSTED = ["theorems equilibrium_solves_augmented and zero_residual_minimiser_unique (Proofs/CertProofs.v) compose with C02 (rows are "
            "outward unit tangents) and C05 (the reported vector is a non-negative least-squares minimiser)",
-           "circle-fit accuracy is an oracle bounded per coefficient (c02.fit_delta: 1e-4 / 1e-6 on arcs turning >= 0.04 rad, 5e-3 + 0.6 x turning on "
-           "flatter or straight interfaces with >= 3 points, 1e-9 for two-point interfaces); the tolerance on the tensions is derived from the measured tangent error E by the perturbation bound "
+           "circle-fit accuracy is an oracle bounded per coefficient (c02.fit_delta: 1e-5 / 1e-6 on arcs, 1e-3 on straight interfaces with "
+           ">= 3 points, 1e-9 for two-point interfaces); the tolerance on the tensions is derived from the measured tangent error E by the perturbation bound "
            "(2 |E T| + eps_res) / sigma_min(augmented matrix), eps_res = residual left by the back-end at termination (1e-9 exact / nnls, "
            "1e-6 lmfit, 1e-4 scipy lsq_linear); independently the reported tensions must fit the assembled equations as well as the true ones"]
 ASSUMPTIONS = ["Maxwell reciprocity: a Voronoi diagram balances under tension = site distance; Moebius maps preserve the angles at junctions"]
